@@ -58,6 +58,7 @@ class Explore(Job):
     configs = {}
     allowed = None        # restrict free steps to these action kinds (None = all enabled)
     canonical_close = True
+    honest_completion = True   # after the fair completion of the network, the applications finish what an honest run still has to do
 
     def __init__(self, cfg, plo, phi, k):
         self.cfg, self.plo, self.phi, self.k = cfg, plo, phi, k
@@ -65,7 +66,7 @@ class Explore(Job):
         self.bounds = dict(config=cfg, config_args={k2: (list(v) if isinstance(v, tuple) else v) for k2, v in self.configs[cfg].items()},
                            canonical_prefix_lengths="%d..%d" % (plo, phi - 1), free_steps=k,
                            free_step_kinds="all enabled" if self.allowed is None else sorted(self.allowed),
-                           then="fair completion (reconnect, deliver everything owed, complete stops, drain eventual queue)")
+                           then="fair completion (reconnect, deliver everything owed, complete stops, drain eventual queue), oracle, then honest completion (the applications enter the code and send what an honest run still has to; everything delivered), oracle")
         self.must_reach = ("nt:explored",)
 
     # to be provided by subclasses: list of (label, detail)
@@ -121,7 +122,9 @@ class Explore(Job):
                 if not self._oracle(sim, "step"):
                     return
             sim.settle()
-            self._oracle(sim, "settled")
+            if self._oracle(sim, "settled") and self.honest_completion:
+                sim.complete(close=False)
+                self._oracle(sim, "settled")
             eng().note("nt:explored")
         finally:
             eng().stats.cover |= sim.world.transitions
@@ -144,6 +147,9 @@ class Explore(Job):
                 fails = self.violations(sim, "step")
             if not fails:
                 sim.settle()
+                fails = self.violations(sim, "settled")
+            if not fails and self.honest_completion:
+                sim.complete(close=False)
                 fails = self.violations(sim, "settled")
             if fails:
                 return "config %s, canonical prefix of %d steps (...%r) + %r: %s: %s" % (
@@ -200,7 +206,9 @@ class RandomPrefixMixin:
                 if not self._oracle(sim, "step"):
                     return
             sim.settle()
-            self._oracle(sim, "settled")
+            if self._oracle(sim, "settled") and self.honest_completion:
+                sim.complete(close=False)
+                self._oracle(sim, "settled")
             eng().note("nt:explored")
         finally:
             sim.close_world()
@@ -220,6 +228,9 @@ class RandomPrefixMixin:
                 fails = self.violations(sim, "step")
             if not fails:
                 sim.settle()
+                fails = self.violations(sim, "settled")
+            if not fails and self.honest_completion:
+                sim.complete(close=False)
                 fails = self.violations(sim, "settled")
             if fails:
                 return "config %s, pseudo-random checkpoint (seed %d: %r) + %r: %s: %s" % (
